@@ -88,6 +88,12 @@ def units(rng, tier):
                 v = v[:6]
                 kk = min(kk, 7)      # all_combinations enumerates k! permutations
             us.append(mk(rng, a, kk, v, fam))
+    # the recursive searches with many bins: rnp with 5 bins (its odd branch recurses into the 4-way search) and snp with 4-5 bins
+    # on 8-9 small values with repeats - the bookkeeping of prior bins / best-so-far across recursion levels only shows here
+    for _ in range(500 if tier == "quick" else 6000):
+        a, k = rng.choice([("rnp", 5), ("rnp", 5), ("rnp", 3), ("snp", 4), ("snp", 5)])
+        vals = [rng.randint(0 if rng.random() < 0.15 else 1, rng.choice([7, 7, 10, 12])) for _ in range(rng.randint(8, 9))]
+        us.append(part_unit(a, k, vals, rng, fmt=rng.choice(["list", "list", "dict_str"]), cmp="sums", family="recursive-many-bins"))
     # large instances for the polynomial heuristics: many items, many bins (around 16 / 32 / 64, where an implementation might switch strategy)
     for _ in range(8 if tier == "quick" else 80):
         nn = rng.choice([40, 64, 65, 100, 129, 200])
